@@ -1257,7 +1257,7 @@ func (pc *PeerConnection) SetRemoteDescription(desc SessionDescription) error {
 
 	var transceiver *RTPTransceiver
 	localTransceivers := append([]*RTPTransceiver{}, pc.GetTransceivers()...)
-	if !weOffer && !detectedPlanB { //nolint:nestif
+	if desc.Type == SDPTypeOffer && !detectedPlanB { //nolint:nestif
 		for _, media := range pc.RemoteDescription().parsed.MediaDescriptions {
 			midValue := getMidValue(media)
 			if midValue == "" {
